@@ -147,6 +147,22 @@ theorem C19_bad_provider_width (env : Env) (s : SrcSt) (req : PutReq) (rc : Remo
   have hb : (¬s.prov.bits = 8 ∧ ¬s.prov.bits = 16) ∧ ¬s.prov.bits = 32 := by omega
   msimp [transactionStart, hreq, hmo, hrc, modP, getP, hb]
 
+/-- **The source file vanished between the accepted request and the transaction start**: the first call
+(and every further one while the file is missing) raises `SourceFileDoesNotExist`; no sequence number
+is drawn, no indication issued, nothing queued; the handler stays busy at the transaction start, so it
+proceeds once the file is back — or the user ends the request with `reset()`. -/
+theorem C19_source_vanished (env : Env) (s : SrcSt) (req : PutReq) (src : String)
+    (hb : s.state = .busy) (hstep : s.step = .IDLE ∨ s.step = .TRANSACTION_START) (hq : s.queue = [])
+    (hreq : s.putReq = some req) (hsrc : req.src = some src) (hgone : Fs.exists' s.fs src = false) :
+    stateMachine env none s = .error .sourceFileDoesNotExist { s with step := .TRANSACTION_START } := by
+  have hmo : req.metadataOnly = false := by simp [PutReq.metadataOnly, hsrc]
+  rcases hstep with hs | hs
+  · msimp [stateMachine, hb, fsmNonIdle, fsmAdvancementAfterPacketsWereSent, hq, hs, hreq, transactionStart, hmo, hsrc,
+      hgone]
+  · msimp [stateMachine, hb, fsmNonIdle, fsmAdvancementAfterPacketsWereSent, hq, hs, hreq, transactionStart, hmo, hsrc,
+      hgone]
+    cases s; simp_all
+
 /-- The values a provider of width `bits` hands out are pairwise distinct for fewer than `2^bits`
 consecutive transactions (the k-th transaction after a state with next value `n` gets
 `(n + k) % 2^bits` by `C19_transaction_start`). -/
